@@ -287,6 +287,34 @@ def plan_C15(ctx, rt):
     return rc
 
 
+def parser_part_for_C06(ctx, rt):
+    """C06's parser half: every enumerated key-package / welcome / extension / imeta shape (hostile classes included) is executed
+    on the real parsers; a panic, or an answer other than the table's refuse / accept, is a violation reported under C06.
+    Returns (rc, stats)."""
+    pid, tier = "C06", ctx["tier"]
+    known = _known(rt)
+    dev = _dev(rt, known)
+    binp = rt.build_crate("htables")
+    c2 = dict(ctx); c2["pid"] = "C06"
+    mc, cases = _enumerate_cases(c2, rt, dev)
+    if mc["violated"] or not mc["completed"]:
+        rt.log(mc["out"][-1500:]); rt.log("TOOL-ERROR: TLC did not complete on MCTables"); return 2, {}
+    res = _run_tables(c2, rt, binp, cases, C15_TABLES, dev, 1 if tier == "quick" else 6, "parsers", "InvC15")
+    try:
+        os.remove(cases)
+    except OSError:
+        pass
+    if res is None:
+        return 2, {}
+    stats = {"shapes": mc["states"], "executions": res["lines"], "distinct": res["distinct"], "nontrivial": res["nontriv"]}
+    if res["viol"]:
+        for what, rp in res["viol"]:
+            rt.log("violation detail:", what)
+            rt.log("VIOLATION property=C06 replay=%s" % rp)
+        return 1, stats
+    return 0, stats
+
+
 # --------------------------------------------------------------------------------------------------- C17
 
 def _media_mc_cfg(dev, same, maxepoch, lookback, invs, files=2):
